@@ -133,6 +133,19 @@ def run(ctx):
                     L = [("writer auto %d %d" % (nsh, total)) if l.startswith("writer ") else l for l in L]
                     pcases.append(({"shards": nsh, "hashes": hs, "fillers": 0, "lookup": wr, "small_capacity": total,
                                     "expect": [G.key_path(w, "w", key, 0), G.key_path(w, "w", key, 1)]}, L))
+    # ... and the builders' choice on the read side (CacheBuilder::reader / ReadOnlyCacheBuilder::cache): a level
+    # declared with count n reads the layout a writer declared with n writes - plain for n <= 1, n shards otherwise
+    for nsh in (0, 1, 2, 3, 16):
+        for hs in ((7, 9), (12345678901234567, 98765432109876543)):
+            key = ("kk", hs[0], hs[1])
+            layout = ("plain",) if nsh <= 1 else ("sharded", nsh)
+            for which in ((0,) if nsh <= 1 else (0, 1)):
+                for w in (None, ("plain", 300)):
+                    for look in ("get", "touch", "roget"):
+                        L = G.header(w, (layout,), "none") + [G.plant(G.key_path(layout, "r0", key, which), "STORED", mtime=G.T0 + 9, atime=G.T0),
+                                                              G.NOFIRE, G.op(0, look, key), "snap"]
+                        L = [("reader auto 0 %d" % nsh) if l.startswith("reader ") else l for l in L]
+                        pcases.append(({"shards": nsh, "hashes": hs, "fillers": 0, "lookup": look, "read_side": True, "which": which, "auto": True}, L))
     pres = S.run_many(pcases)
     pagree = 0
     for desc, lines, impl, model, diffs in pres:
